@@ -148,8 +148,10 @@ void harness_roundtrip(void)
 	enc = evhttp_uriencode((const char *)s, uselen ? (ev_ssize_t)len : -1, plus);
 	VP_ASSERT(enc != NULL, "C29: evhttp_uriencode fails only when allocation fails");
 	VP_ASSERT(enc == vp_last_alloc_ptr && vp_last_alloc_req == rn + 1, "C29: evhttp_uriencode result is not allocated to fit exactly");
-	for (i = 0; i <= 3 * VP_N; i++) if (i <= rn && (unsigned char)enc[i] != renc[i]) same = 0;
-	VP_ASSERT(same, "C29: evhttp_uriencode output differs from the reference encoder");
+	/* the case of the hex digits is not prescribed (RFC 3986 2.1: "should" be upper case): compare modulo ASCII case;
+	 * the round trip below still distinguishes 'a' from 'A' */
+	for (i = 0; i <= 3 * VP_N; i++) if (i <= rn && ruc_lower((unsigned char)enc[i]) != ruc_lower(renc[i])) same = 0;
+	VP_ASSERT(same, "C29: evhttp_uriencode output differs from the reference encoder (unreserved bytes verbatim, everything else %XX)");
 	en = strlen(enc);
 	for (i = 0; i < 3 * VP_N; i++) {
 		unsigned char c;
